@@ -180,7 +180,10 @@ def apparent_mapper_stable(rep):
             got = s.field_bytes('mapper_apparent', 6)
             want = tuple(s.st.canon(b) for b in F_ETH_SRC)
             request = all(t in (0, 1) for t in s.tos.values()) and set(s.op.values()) <= REQUESTS
-            ok = request and tuple(got) == want
+            # (a cell that leaves no mapper known - the Reset - may wipe the address with the rest of the record: nothing reads
+            #  it until a request of the next mapper has stored its own, which C09 decides)
+            forgotten = s.st.canon(s.k_post) == ZERO
+            ok = (request and tuple(got) == want) or forgotten
             rep.check(ok, 'R06.7', 'apparent|%s' % region,
                       'a frame (ToS %s, opcode %s) rewrites the stored apparent mapper address %s: the ACK of the next Emit goes to an address that is not the one '
                       'the mapper sent its requests from' % (s.tos, s.op, 'although it is not a request of the mapper (Discover / Emit / Query / QueryLargeTlv)' if not request
